@@ -19,7 +19,7 @@ Ltac ev_step HR ev1 ev2 :=
   | |- context [ev2 ?fr ?st ?e] =>
       let E := fresh "E" in
       pose proof (HR fr st e) as E;
-      destruct (ev1 fr st e) as [[?v|?k| | |?v|[| |]] ?s];
+      destruct (ev1 fr st e) as [[?v|?k| | |?v|[| | | |]] ?s];
       cbn [fst] in E;
       try (rewrite E by (unfold dsl_nf; discriminate); clear E);
       cbn [dsl_bind fst] in *
@@ -35,7 +35,7 @@ Proof.
   induction es as [|e t IH]; intros fr st H; [reflexivity|].
   cbn [dsl_eval_list] in *. ev_step HR ev1 ev2; try reflexivity; try (cbn in H; fuel_absurd).
   rewrite IH; [reflexivity|].
-  destruct (dsl_eval_list ev1 fr s t) as [[[?v|?k| | |?v|[| |]] ?s] ?l]; cbn in *; try exact H; unfold dsl_nf; discriminate.
+  destruct (dsl_eval_list ev1 fr s t) as [[[?v|?k| | |?v|[| | | |]] ?s] ?l]; cbn in *; try exact H; unfold dsl_nf; discriminate.
 Qed.
 
 Lemma dsl_eval_seq_mono : forall es fr st last,
@@ -52,7 +52,7 @@ Proof.
   induction cs as [|[k e] t IH]; intros fr st H; [reflexivity|].
   cbn [dsl_eval_closed] in *. ev_step HR ev1 ev2; try reflexivity; try (cbn in H; fuel_absurd);
   (rewrite IH; [reflexivity|];
-   destruct (dsl_eval_closed ev1 fr s t) as [[[?v|?k| | |?v|[| |]] ?s] ?l]; cbn in *; try exact H; unfold dsl_nf; discriminate).
+   destruct (dsl_eval_closed ev1 fr s t) as [[[?v|?k| | |?v|[| | | |]] ?s] ?l]; cbn in *; try exact H; unfold dsl_nf; discriminate).
 Qed.
 
 Lemma dsl_while_mono2 : forall L1 L2 fr st c b, (L1 <= L2)%nat ->
@@ -85,13 +85,13 @@ Proof.
 Qed.
 
 Lemma dsl_fun_result_nf : forall o, dsl_nf (fst (dsl_fun_result o)) -> dsl_nf (fst o).
-Proof. intros [[v|k| | |v|[| |]] s] H; cbn in *; try exact H; unfold dsl_nf; discriminate. Qed.
+Proof. intros [[v|k| | |v|[| | | |]] s] H; cbn in *; try exact H; unfold dsl_nf; discriminate. Qed.
 
 Lemma dsl_call_user_mono : forall st l self args,
   dsl_nf (fst (dsl_call_user ev1 st l self args)) -> dsl_call_user ev2 st l self args = dsl_call_user ev1 st l self args.
 Proof.
   intros st l self args H. unfold dsl_call_user in *.
-  destruct (dsl_sget st l) as [[| | |params closed body]|]; try reflexivity.
+  destruct (dsl_sget st l) as [[| | | |params closed body]|]; try reflexivity.
   destruct (Nat.ltb (List.length args) (List.length params)); [reflexivity|].
   destruct (dsl_alloc st (DoDict (dsl_bind_args params args (dsl_dmerge closed [])))) as [st1 loc].
   rewrite HR; [reflexivity|]. apply dsl_fun_result_nf. exact H.
@@ -108,7 +108,7 @@ Ltac cb_step :=
   | |- context [dsl_callback ev2 ?st ?f ?args] =>
       let E := fresh "E" in
       pose proof (dsl_callback_mono st f args) as E;
-      destruct (dsl_callback ev1 st f args) as [[?v|?k| | |?v|[| |]] ?s];
+      destruct (dsl_callback ev1 st f args) as [[?v|?k| | |?v|[| | | |]] ?s];
       cbn [fst] in E;
       try (rewrite E by (unfold dsl_nf; discriminate); clear E);
       cbn [dsl_bind fst] in *
@@ -152,7 +152,7 @@ Proof.
         | |- context [dsl_iter ev2 ?m ?f ?l ?LL ?i ?st0 ?acc] =>
             let E := fresh "E" in
             pose proof (dsl_iter_mono L1 L2 m f l i st0 acc Hle) as E;
-            destruct (dsl_iter ev1 m f l L1 i st0 acc) as [[[[?v|?k| | |?v|[| |]] ?s] ?a] ?b]; cbn [fst] in E;
+            destruct (dsl_iter ev1 m f l L1 i st0 acc) as [[[[?v|?k| | |?v|[| | | |]] ?s] ?a] ?b]; cbn [fst] in E;
             try (rewrite E by (unfold dsl_nf; discriminate)); try reflexivity; cbn in H; fuel_absurd
         end);
    try (destruct (dsl_arr st l); [reflexivity|]; apply dsl_reduce_mono; assumption)).
@@ -168,7 +168,7 @@ Qed.
 
 Definition dsl_nfref (r : dsl_refres) : Prop := match r with RrOut o => dsl_nf (fst o) | _ => True end.
 
-Ltac res_cases t := destruct t as [[?v|?k| | |?v|[| |]] ?s].
+Ltac res_cases t := destruct t as [[?v|?k| | |?v|[| | | |]] ?s].
 
 Ltac crush H :=
   repeat (cbn [dsl_bind fst dsl_nfref dsl_ret dsl_err dsl_lift] in *;
@@ -188,10 +188,66 @@ Ltac crush H :=
         res_cases (ev1 fr st e); cbn [fst] in E;
         first [ rewrite E by (unfold dsl_nf; discriminate); clear E | (cbn in H; fuel_absurd) ] end ]).
 
+Definition dsl_nfimp (r : dsl_impres) : Prop := match r with IrOut o => dsl_nf (fst o) | _ => True end.
+
+Lemma dsl_find_import_mono : forall imps fr st x,
+  dsl_nfimp (dsl_find_import ev1 fr st imps x) -> dsl_find_import ev2 fr st imps x = dsl_find_import ev1 fr st imps x.
+Proof.
+  induction imps as [|i t IH]; intros fr st x H; [reflexivity|].
+  cbn [dsl_find_import] in *.
+  pose proof (HR fr st i) as E. destruct (ev1 fr st i) as [r st1] eqn:E1. cbn [fst] in E.
+  assert (Hgo : forall v,
+    dsl_nfimp (match v with
+               | DvEmpty => IrOut (DrAbort DaNullImport, st1)
+               | DvFun _ | DvNat _ => IrOut (DrAbort DaDomain, st1)
+               | DvNum _ _ | DvBool _ | DvStr _ => IrOut (DrErr DkType, st1)
+               | _ => if dsl_has_own st1 v x then IrFound v st1 else dsl_find_import ev1 fr st1 t x
+               end) ->
+    match v with
+    | DvEmpty => IrOut (DrAbort DaNullImport, st1)
+    | DvFun _ | DvNat _ => IrOut (DrAbort DaDomain, st1)
+    | DvNum _ _ | DvBool _ | DvStr _ => IrOut (DrErr DkType, st1)
+    | _ => if dsl_has_own st1 v x then IrFound v st1 else dsl_find_import ev2 fr st1 t x
+    end =
+    match v with
+    | DvEmpty => IrOut (DrAbort DaNullImport, st1)
+    | DvFun _ | DvNat _ => IrOut (DrAbort DaDomain, st1)
+    | DvNum _ _ | DvBool _ | DvStr _ => IrOut (DrErr DkType, st1)
+    | _ => if dsl_has_own st1 v x then IrFound v st1 else dsl_find_import ev1 fr st1 t x
+    end).
+  { intros v Hv. destruct v; try reflexivity;
+    (destruct (dsl_has_own st1 _ x); [reflexivity | apply IH; exact Hv]). }
+  destruct r as [v|k| | |v|[| | | |]];
+    first [ (cbn in H; fuel_absurd)
+          | rewrite E by (unfold dsl_nf; discriminate); cbv zeta; first [reflexivity | apply Hgo; exact H] ].
+Qed.
+
+Lemma dsl_var_read_mono : forall imps fr st x,
+  dsl_nf (fst (dsl_var_read ev1 fr st imps x)) -> dsl_var_read ev2 fr st imps x = dsl_var_read ev1 fr st imps x.
+Proof.
+  intros imps fr st x H. unfold dsl_var_read in *.
+  destruct (dsl_dget x (dsl_kv st (dfr_locals fr))); [reflexivity|].
+  destruct (dsl_self_has fr st x); [reflexivity|].
+  pose proof (dsl_find_import_mono imps fr st x) as E.
+  destruct (dsl_find_import ev1 fr st imps x) as [p s1|s1|o]; cbn [dsl_nfimp] in E; rewrite E by (first [exact I | exact H]); reflexivity.
+Qed.
+
+Lemma dsl_var_ref_mono : forall imps fr st x,
+  dsl_nfref (dsl_var_ref ev1 fr st imps x) -> dsl_var_ref ev2 fr st imps x = dsl_var_ref ev1 fr st imps x.
+Proof.
+  intros imps fr st x H. unfold dsl_var_ref in *.
+  destruct (dsl_dhas x (dsl_kv st (dfr_locals fr))); [reflexivity|].
+  destruct (dsl_self_has fr st x); [reflexivity|].
+  pose proof (dsl_find_import_mono imps fr st x) as E.
+  destruct (dsl_find_import ev1 fr st imps x) as [p s1|s1|o]; cbn [dsl_nfimp dsl_nfref] in *; rewrite E by (first [exact I | exact H]); reflexivity.
+Qed.
+
 Lemma dsl_ref_mono : forall e fr st init,
   dsl_nfref (dsl_ref ev1 fr st e init) -> dsl_ref ev2 fr st e init = dsl_ref ev1 fr st e init.
 Proof.
-  induction e; intros fr st init H; try reflexivity.
+  induction e; intros fr st init H; try reflexivity;
+    try (cbn [dsl_ref] in *; apply dsl_var_ref_mono; exact H);
+    try (cbn [dsl_ref] in *; crush H; fail).
   cbn [dsl_ref] in *. cbv zeta in *.
   pose proof (IHe1 fr st init) as E1.
   destruct (dsl_ref ev1 fr st e1 init) as [vp vi s1| |o] eqn:R1.
@@ -215,13 +271,16 @@ Ltac crush2 H L1 L2 Hle :=
         let Ex := fresh "Ex" in destruct x eqn:Ex; try rewrite Ex in H end
     | match goal with |- context [dsl_ref ev2 ?fr ?st ?e ?i] =>
         let E := fresh "E" in pose proof (dsl_ref_mono e fr st i) as E;
-        destruct (dsl_ref ev1 fr st e i) as [?vp ?vi ?s| |[[?v|?k| | |?v|[| |]] ?s]]; cbn [dsl_nfref fst] in E; fin_step E H end
+        destruct (dsl_ref ev1 fr st e i) as [?vp ?vi ?s| |[[?v|?k| | |?v|[| | | |]] ?s]]; cbn [dsl_nfref fst] in E; fin_step E H end
+    | match goal with |- context [dsl_var_read ev2 ?fr ?st ?imps ?x] =>
+        let E := fresh "E" in pose proof (dsl_var_read_mono imps fr st x) as E;
+        res_cases (dsl_var_read ev1 fr st imps x); cbn [fst] in E; fin_step E H end
     | match goal with |- context [dsl_eval_list ev2 ?fr ?st ?es] =>
         let E := fresh "E" in pose proof (dsl_eval_list_mono es fr st) as E;
-        destruct (dsl_eval_list ev1 fr st es) as [[[?v|?k| | |?v|[| |]] ?s] ?vs]; cbn [fst] in E; fin_step E H end
+        destruct (dsl_eval_list ev1 fr st es) as [[[?v|?k| | |?v|[| | | |]] ?s] ?vs]; cbn [fst] in E; fin_step E H end
     | match goal with |- context [dsl_eval_closed ev2 ?fr ?st ?cs] =>
         let E := fresh "E" in pose proof (dsl_eval_closed_mono cs fr st) as E;
-        destruct (dsl_eval_closed ev1 fr st cs) as [[[?v|?k| | |?v|[| |]] ?s] ?vs]; cbn [fst] in E; fin_step E H end
+        destruct (dsl_eval_closed ev1 fr st cs) as [[[?v|?k| | |?v|[| | | |]] ?s] ?vs]; cbn [fst] in E; fin_step E H end
     | match goal with |- context [dsl_eval_seq ev2 ?fr ?st ?es ?l] =>
         let E := fresh "E" in pose proof (dsl_eval_seq_mono es fr st l) as E;
         res_cases (dsl_eval_seq ev1 fr st es l); cbn [fst] in E; fin_step E H end
@@ -260,3 +319,25 @@ Qed.
 Corollary dsl_fuel_monotone : forall L1 L2 g fr st e, (L1 <= L2)%nat ->
   fst (dsl_eval L1 g fr st e) <> DrAbort DaFuel -> dsl_eval L2 g fr st e = dsl_eval L1 g fr st e.
 Proof. intros. apply dsl_eval_mono; assumption. Qed.
+
+(* ------------------------------------------------------------------ loop-free evaluations never exhaust the loop budget *)
+(* With a loop budget of 0 every loop construct - while, for over an array, Array#map/filter/any/all and Array#reduce on a
+   non-empty array - stops with DaFuel at the moment it is ENTERED, before its first iteration: evaluation with L = 0 is a
+   loop detector.  (for over a dictionary/namespace iterates a snapshot of the keys and needs no budget.) *)
+Lemma dsl_loops_need_budget :
+  (forall ev fr st c b, dsl_while ev 0 fr st c b = (DrAbort DaFuel, st)) /\
+  (forall ev fr st k l i b, dsl_for_arr ev 0 fr st k l i b = (DrAbort DaFuel, st)) /\
+  (forall ev mode f l i st acc, dsl_iter ev mode f l 0 i st acc = (DrAbort DaFuel, st, acc, false)) /\
+  (forall ev f l i acc st, dsl_reduce ev 0 f l i acc st = (DrAbort DaFuel, st)).
+Proof. repeat split. Qed.
+
+(* an evaluation that enters no loop construct (detected with budget 0) yields the same result and store under EVERY loop
+   budget; in particular it never ends in DaFuel *)
+Theorem dsl_loopfree_no_fuel : forall g fr st e,
+  fst (dsl_eval 0 g fr st e) <> DrAbort DaFuel ->
+  forall L, dsl_eval L g fr st e = dsl_eval 0 g fr st e /\ fst (dsl_eval L g fr st e) <> DrAbort DaFuel.
+Proof.
+  intros g fr st e H L.
+  assert (E : dsl_eval L g fr st e = dsl_eval 0 g fr st e) by (apply dsl_eval_mono; [apply Nat.le_0_l | exact H]).
+  split; [exact E | rewrite E; exact H].
+Qed.
